@@ -81,7 +81,7 @@ type Opts struct {
 	Globals      bool
 	IJ           bool
 	AsciiData    bool
-	Big          bool // sizes beyond what buffers, chunks, tables and counters are usually made for: text runs and strings of thousands of bytes, lists of hundreds of items, switches of a dozen cases
+	Big          bool // sizes beyond what buffers, chunks, tables and counters are usually made for: text runs and strings of thousands of bytes, switches of a dozen cases (lists stay short: loops nest)
 }
 
 // bigUnits are repeated to make long text; none contains a line break, a brace or a comment opener.
@@ -177,9 +177,9 @@ func (g *G) Data(t Ty, nextID *int) ref.Value {
 		*nextID++
 		v := ref.Value{K: ref.KList, ID: *nextID}
 		n := 2 + g.R.Intn(3)
-		if g.O.Big && g.R.P(1, 6) && t.Elem.K != "list" {
-			n = []int{255, 256, 257, 300, 513}[g.R.Intn(5)]
-		}
+		// (no lists of hundreds of items here, not even under the Big option: loops nest, three loops over such a list
+		// are tens of millions of steps, and the step budget would take the render for one that does not end. Long
+		// loops have families of their own: C12 long-loop, C06 deep calls, C02's volume of text.)
 		for i := 0; i < n; i++ {
 			v.L = append(v.L, g.Data(*t.Elem, nextID))
 		}
